@@ -265,6 +265,18 @@ def replay_conserve(chk, rs, c, variants):
                         if abs(mflx - want) > TOL[prec] * scale or abs(mconc + want * R) > TOL[prec] * scale_c:
                             _viol(chk, rs, c, "mean_flux", "source of magnitude %g: mean flux %.6g / mean concentration %.6g at slot %d, expected %.6g / %.6g" % (mag, mflx, mconc, k, want, -want * R), **extra)
                             return
+            # ... and for very weak turbulence (winds and diffusivities times 1e-7: Kz of the order of 1e-8 m2/s, far below
+            # any "physical" floor): the budget is the same statement with a larger resistance
+            if not c["fp"] and not os.environ.get("VERIF_NOMINAL"):
+                weak = tuple(np.asarray(a_, dtype=float) * 1e-7 for a_ in prof)
+                _, conc_w, flx_w = rs.solve3(q, kw, srf_bg_conc=bg, profiles=weak)
+                for k, node in enumerate(c["lv"]):
+                    want = float(np.mean(q))
+                    Rw = (z[node] - z[0]) / weak[4][-1] if c["an"] else resistance(z, weak[4], node)
+                    mflx, mconc = float(np.mean(flx_w[k])), float(np.mean(conc_w[k]))
+                    if abs(mflx - want) > TOL[prec] * max(float(np.mean(np.abs(flx_w[k]))), abs(want), 1e-300) or abs(mconc - (bg - want * Rw)) > TOL[prec] * max(float(np.mean(np.abs(conc_w[k]))), abs(want * Rw), 1e-300):
+                        _viol(chk, rs, c, "mean_conc", "winds and diffusivities times 1e-7: mean flux %.12g / mean concentration %.12g at slot %d (node %d), expected %.12g / bg - meanflux*R = %.12g" % (mflx, mconc, k, node, want, bg - want * Rw), **extra)
+                        return
         elif c["fp"] or (c["xm"] == 0 and c["ym"] == 0):
             px, py = g["px"], g["py"]
             qe = np.pad(q, ((py, py), (px, px)))
